@@ -29,6 +29,18 @@ type osAddr struct {
 	Flags uint32 `json:"flags"`
 	Valid uint32 `json:"valid_lft"`
 	Pref  uint32 `json:"preferred_lft"`
+	// a point-to-point address (`ip addr add <addr> peer <peer>/<bits>`): the kernel then reports the peer in
+	// IFA_ADDRESS and the interface's own address in IFA_LOCAL (linux/if_addr.h; seen on this sandbox's kernel)
+	Peer string `json:"peer,omitempty"`
+}
+
+// attrs is the address reply as the kernel builds it (inet6_fill_ifaddr).
+func (x osAddr) attrs() *rtnetlink.AddressAttributes {
+	a := &rtnetlink.AddressAttributes{Address: netip.MustParseAddr(x.Addr).AsSlice(), Flags: x.Flags, CacheInfo: rtnetlink.CacheInfo{Valid: x.Valid, Prefered: x.Pref}}
+	if x.Peer != "" {
+		a.Local, a.Address = a.Address, netip.MustParseAddr(x.Peer).AsSlice()
+	}
+	return a
 }
 
 type osRoute struct {
@@ -56,6 +68,16 @@ func osProp(k *verifkit.Kit) func(c osCase) error {
 			}
 		}
 		k.Record(c, flagged > 0 || len(c.Routes) > 1, fmt.Sprintf("addrs=%d", min(len(c.Addrs), 6)), fmt.Sprintf("routes=%d", min(len(c.Routes), 6)))
+		routes := c.Routes
+		if k.ID != "C15" {
+			// (a default route is C15's business - finding F21; the address properties see the dump without it)
+			routes = nil
+			for _, x := range c.Routes {
+				if x.Bits != 0 {
+					routes = append(routes, x)
+				}
+			}
+		}
 		var gotReq []string
 		failed := map[string]int{}
 		fails := func(kind string) error {
@@ -76,20 +98,22 @@ func osProp(k *verifkit.Kit) func(c osCase) error {
 					return nil, err
 				}
 				for _, x := range c.Addrs {
-					ip := netip.MustParseAddr(x.Addr)
-					out = append(out, &rtnetlink.AddressMessage{Family: unix.AF_INET6, PrefixLength: x.Bits, Index: req.Index,
-						Attributes: &rtnetlink.AddressAttributes{Address: ip.AsSlice(), Flags: x.Flags,
-							CacheInfo: rtnetlink.CacheInfo{Valid: x.Valid, Prefered: x.Pref}}})
+					out = append(out, &rtnetlink.AddressMessage{Family: unix.AF_INET6, PrefixLength: x.Bits, Index: req.Index, Attributes: x.attrs()})
 				}
 			case *rtnetlink.RouteMessage:
 				gotReq = append(gotReq, fmt.Sprintf("route family=%d oif=%d table=%d", req.Family, req.Attributes.OutIface, req.Attributes.Table))
 				if err := fails("route"); err != nil {
 					return nil, err
 				}
-				for _, x := range c.Routes {
+				for _, x := range routes {
 					ip := netip.MustParseAddr(x.Dst)
 					rm := &rtnetlink.RouteMessage{Family: unix.AF_INET6, DstLength: x.Bits,
 						Attributes: rtnetlink.RouteAttributes{Dst: ip.AsSlice(), OutIface: x.OutIf}}
+					if x.Bits == 0 {
+						// as the kernel reports a default route (rt6_fill_node puts RTA_DST only if dst_len != 0; seen on
+						// this sandbox's kernel with `ip -6 route add blackhole default`): no destination attribute
+						rm.Attributes.Dst = nil
+					}
 					if x.Pref >= 0 {
 						p := uint8(x.Pref)
 						rm.Attributes.Pref = &p
@@ -137,17 +161,35 @@ func osProp(k *verifkit.Kit) func(c osCase) error {
 				return verifkit.Violf("OS/address-flags-mapping", "address %d (%s/%d flags %#x valid %d): want %+v got %+v", i, x.Addr, x.Bits, x.Flags, x.Valid, want, ips[i])
 			}
 		}
-		rts, err := a.routesByIndex(c.Index)
+		var rts []Route
+		defaults := 0
+		for _, x := range routes {
+			if x.Bits == 0 {
+				defaults++
+			}
+		}
+		var pan any
+		func() {
+			defer func() { pan = recover() }()
+			rts, err = a.routesByIndex(c.Index)
+		}()
+		if pan != nil {
+			if defaults > 0 && strings.Contains(fmt.Sprint(pan), `invalid IPv6 route from rtnetlink: "<nil>"`) {
+				// (finding F21: listed in known_findings.json under this signature for C15)
+				return verifkit.Violf("OS/default-route-on-loopback-panics", "the dump lists a default route (no destination attribute, as the kernel sends it): routesByIndex panics: %v", pan)
+			}
+			return verifkit.Violf("panic", "routesByIndex panics: %v", pan)
+		}
 		if err != nil && c.Errno != "" {
 			return nil
 		}
 		if err != nil {
 			return verifkit.Violf("OS/routes-error", "routesByIndex: %v", err)
 		}
-		if len(rts) != len(c.Routes) {
-			return verifkit.Violf("OS/route-count", "kernel listed %d routes, addresser returned %d", len(c.Routes), len(rts))
+		if len(rts) != len(routes) {
+			return verifkit.Violf("OS/route-count", "kernel listed %d routes, addresser returned %d", len(routes), len(rts))
 		}
-		for i, x := range c.Routes {
+		for i, x := range routes {
 			pref := 0
 			if x.Pref >= 0 {
 				pref = x.Pref
@@ -188,6 +230,11 @@ func osGen(t *rapid.T) osCase {
 		}
 		c.Addrs = append(c.Addrs, osAddr{Addr: netip.AddrFrom16(base).String(), Bits: uint8(rapid.SampledFrom([]int{64, 64, 128, 48, 56}).Draw(t, "bits")), Flags: fl,
 			Valid: rapid.SampledFrom([]uint32{math.MaxUint32, math.MaxUint32 - 1, 0, 86400}).Draw(t, "valid"), Pref: rapid.SampledFrom([]uint32{math.MaxUint32, 0, 14400}).Draw(t, "pref")})
+		if rapid.IntRange(0, 5).Draw(t, "ptp") == 0 {
+			peer := netip.MustParseAddr(rapid.SampledFrom(nets).Draw(t, "peernet")).As16()
+			peer[15] = byte(rapid.IntRange(1, 250).Draw(t, "peerhost"))
+			c.Addrs[len(c.Addrs)-1].Peer = netip.AddrFrom16(peer).String()
+		}
 	}
 	for i, n := 0, rapid.IntRange(0, 6).Draw(t, "nroutes"); i < n; i++ {
 		p := netip.PrefixFrom(netip.MustParseAddr(rapid.SampledFrom([]string{"2001:db8::", "2001:db8:0:1::", "fd00::", "::"}).Draw(t, "dst")), rapid.SampledFrom([]int{0, 32, 48, 64, 128}).Draw(t, "rbits")).Masked()
@@ -244,7 +291,7 @@ func osOverlapProp(k *verifkit.Kit) func(c osCase) error {
 			if req, ok := m.(*rtnetlink.AddressMessage); ok {
 				for _, x := range c.Addrs {
 					out = append(out, &rtnetlink.AddressMessage{Family: unix.AF_INET6, PrefixLength: x.Bits, Index: req.Index,
-						Attributes: &rtnetlink.AddressAttributes{Address: netip.MustParseAddr(x.Addr).AsSlice(), Flags: x.Flags, CacheInfo: rtnetlink.CacheInfo{Valid: x.Valid, Prefered: x.Pref}}})
+						Attributes: x.attrs()})
 				}
 			}
 			return out, nil
